@@ -56,7 +56,7 @@ def sensitive_trees():
     out.append(doc([E("a", E("p", T("x")), a=[A("href", "u")]), E("p", T("y")), E("dialog", E("p", T("z")), a=[A("open", "")])]))
     out.append(doc([E("div", a=[A("title", "'")]), E("div", a=[A("title", '"')]), E("div", a=[A("title", "\"'")]), E("div", a=[A("title", "=")]),
                     E("div", a=[A("title", "<")]), E("div", a=[A("title", ">")]), E("div", a=[A("title", "`")]), E("div", a=[A("title", "&")]),
-                    E("div", a=[A("title", "é")]), E("div", a=[A("title", "\U0001f600")]), E("div", a=[A("title", ""), A("class", "a b"), A("id", "i")])]))
+                    E("div", a=[A("title", "é")]), E("div", a=[A("title", "Éx"), A("class", "É=")]), E("div", a=[A("title", "\U0001f600")]), E("div", a=[A("title", ""), A("class", "a b"), A("id", "i")])]))
     out.append(doc([E("svg", E("g", E("title", T("t<"), ns="svg"), E("foreignObject", E("p", T("x")), E("div"), ns="svg"), ns="svg"),
                       E("a", a=[("xlink", "href", "#x")], ns="svg"),
                       ns="svg", a=[A("viewBox", "0 0 1 1"), A("width", "1")]),
